@@ -857,6 +857,7 @@ void World::run(sim::Plan const &plan)
       ++effective;
     check_lists(op.name);
     check_signals(op.name);
+    ctx.state(state_str());
     ctx.end_op();
   }
   // teardown in plan-determined order: connections, signals, elements, lists - or the reverse
